@@ -34,6 +34,7 @@ type FuncTarget struct {
 	As     string            `json:"as"`    // Lean name (default Name or Recv_Name)
 	Types  map[string]string `json:"types"` // named type → builtin kind (e.g. "sutils.FilterOperator":"int")
 	Consts map[string]string `json:"consts"` // selector constants → Lean names, e.g. "sutils.Equals":"FilterOperator_Equals"
+	Calls  map[string]string `json:"calls"`  // calls to other translated kernels: Go callee → "LeanName:resultKind", e.g. "utils.IsTimeInNano":"IsTimeInNano:bool"
 }
 type ConstTarget struct {
 	File   string   `json:"file"`
@@ -93,6 +94,7 @@ type tr struct {
 	params []string          // lean params in order "(name : T)"
 	fields map[string]map[string]string
 	ver    map[string]int
+	optRes bool // function returns (T, error): emitted as Option T (nil error → some, anything else → none)
 }
 
 func (x *tr) kindOfType(e ast.Expr) string {
@@ -230,6 +232,21 @@ func (x *tr) expr(e ast.Expr) (string, string) {
 				}
 			}
 		}
+		if spec, ok := x.t.Calls[exprStr(v.Fun)]; ok {
+			parts := strings.SplitN(spec, ":", 2)
+			if len(parts) != 2 {
+				fail("calls entry %q must be LeanName:kind", spec)
+			}
+			out := "(" + parts[0]
+			for _, a := range v.Args {
+				s, k := x.expr(a)
+				if k == "float" || k == "bool" {
+					fail("call argument of kind %s", k)
+				}
+				out += " " + s
+			}
+			return out + ")", parts[1]
+		}
 		fail("call %s", exprStr(v.Fun))
 	case *ast.BinaryExpr:
 		a, ka := x.expr(v.X)
@@ -350,6 +367,16 @@ func (x *tr) stmts(list []ast.Stmt, ind string) string {
 	rest := list[1:]
 	switch v := s.(type) {
 	case *ast.ReturnStmt:
+		if x.optRes {
+			if len(v.Results) != 2 {
+				fail("return with %d results in a (T, error) function", len(v.Results))
+			}
+			if id, ok := v.Results[1].(*ast.Ident); ok && id.Name == "nil" {
+				e, _ := x.expr(v.Results[0])
+				return "(some " + e + ")"
+			}
+			return "none"
+		}
 		if len(v.Results) != 1 {
 			fail("return with %d results", len(v.Results))
 		}
@@ -435,12 +462,17 @@ func (x *tr) stmts(list []ast.Stmt, ind string) string {
 		case *ast.IfStmt:
 			el = []ast.Stmt{e}
 		}
-		if !returns(v.Body.List) || (v.Else != nil && !returns(el)) {
-			// non-returning branch: only supported when the branch consists of assignments to existing locals
-			fail("if-branch that neither returns nor is in the subset")
+		// a branch that does not return falls through to the statements after the if: the
+		// continuation is duplicated into that branch
+		thList := v.Body.List
+		if !returns(thList) {
+			thList = append(append([]ast.Stmt{}, thList...), rest...)
+		}
+		if v.Else != nil && !returns(el) {
+			el = append(append([]ast.Stmt{}, el...), rest...)
 		}
 		saved := x.snapshot()
-		th := x.stmts(v.Body.List, ind+"  ")
+		th := x.stmts(thList, ind+"  ")
 		x.restore(saved)
 		var els string
 		if v.Else != nil {
@@ -628,11 +660,17 @@ func translate(repo string, t *FuncTarget) (lean string, err error) {
 			addParam(n.Name, p.Type)
 		}
 	}
-	if fd.Type.Results == nil || len(fd.Type.Results.List) != 1 {
-		fail("needs exactly one result")
+	if fd.Type.Results != nil && len(fd.Type.Results.List) == 2 && exprStr(fd.Type.Results.List[1].Type) == "error" {
+		x.optRes = true
+	} else if fd.Type.Results == nil || len(fd.Type.Results.List) != 1 {
+		fail("needs exactly one result (or (T, error))")
 	}
 	rk := x.kindOfType(fd.Type.Results.List[0].Type)
 	body := x.stmts(fd.Body.List, "  ")
+	resTy := leanTy(rk)
+	if x.optRes {
+		resTy = "Option " + resTy
+	}
 	name := t.As
 	if name == "" {
 		name = t.Name
@@ -641,7 +679,7 @@ func translate(repo string, t *FuncTarget) (lean string, err error) {
 		}
 	}
 	pos := fset.Position(fd.Pos())
-	return fmt.Sprintf("/-- generated from %s:%d `%s` -/\ndef %s %s : %s :=\n  %s\n", t.File, pos.Line, t.Name, name, strings.Join(params, " "), leanTy(rk), body), nil
+	return fmt.Sprintf("/-- generated from %s:%d `%s` -/\ndef %s %s : %s :=\n  %s\n", t.File, pos.Line, t.Name, name, strings.Join(params, " "), resTy, body), nil
 }
 
 // ---- constants
